@@ -40,26 +40,55 @@ _WAIT = [(1, 4), (2, 4), (3, 3), (5, 3), (8, 2), (20, 2), (50, 2), (97, 1), (99,
 # one step of a cooperative script may be left out: the DUT must then NOT reach U0 through that script
 _SKIP = [("", 8), ("partner", 1), ("lfps", 1), ("tseq", 1), ("burst_min", 1), ("ts1", 1), ("ts2", 1), ("burst_ts2", 1),
          ("burst_exit", 1), ("idle", 1)]
+# points of a cooperative script after which a warm reset may be injected (the state the step leads to, on the way to U0)
+BRING_POINTS = ["partner", "lfps", "tseq", "burst_min", "ts1", "ts2", "burst_ts2", "burst_exit"]
+REC_POINTS = ["enter", "burst_min", "ts1", "ts2", "burst_ts2", "burst_exit"]
+HOT_POINTS = ["hot_enter", "hot_burst", "hot_ts2", "hot_burst_ts2"]        # Hot Reset.Active x3, Hot Reset.Exit
 _SMALL = [(1, 5), (2, 4), (3, 3), (4, 2), (7, 2), (12, 1), (30, 1), (99, 1), (120, 1), (650, 1)]
 
 
-def _steps():
+def _steps(focused=False):
     wait = st.fixed_dictionaries(dict(k=st.just("w"), n=weighted(_WAIT)))
     pulse = st.fixed_dictionaries(dict(k=st.just("p"), s=st.lists(weighted(PULSE_SIGNALS), min_size=1, max_size=2),
                                        w=weighted([(1, 6), (2, 2), (4, 1)])))
     level = st.sampled_from(range(len(LEVELS))).flatmap(
         lambda i: st.fixed_dictionaries(dict(k=st.just("l"), s=st.just(LEVELS[i][0]),
                                              v=st.sampled_from(LEVELS[i][1]))))
+    # a warm reset (in_usb_reset) that begins *inside* a cooperative script: [injection point, delay, length]; the
+    # partner script simply carries on afterwards (it has not noticed), so on a correct LTSSM the rest of it meets a
+    # DUT that is detecting again.  Lengths: shorter and longer than the 2 ms / 12 ms substate timeouts.
+    wr_len = weighted([(1, 3), (2, 2), (8, 2), (30, 1), (99, 1), (101, 1), (130, 2), (640, 1)])
+    wr_raw = st.one_of(st.none(), st.none(),
+                       st.tuples(st.integers(0, 63), weighted([(0, 4), (1, 2), (3, 1), (10, 1), (60, 1), (97, 1)]),
+                                 wr_len).map(list))
+
+    def place(points_plain, points_hot):
+        def fix(d):
+            wr = d.pop("wr_raw")
+            if wr is not None:
+                pts = points_plain + (points_hot * 3 if d["hot"] else [])      # weight on the hot-reset substates
+                d["wr"] = [pts[wr[0] % len(pts)], wr[1], wr[2]]
+            return d
+        return fix
+
     bring = st.fixed_dictionaries(dict(
         k=st.just("bring"), d=st.lists(weighted(_SMALL), min_size=14, max_size=14),
-        lfps=weighted([("lfps", 3), ("ts1", 1)]), hot=weighted([(0, 4), (1, 1)]), noscr=weighted([(0, 3), (1, 1)]),
+        lfps=weighted([("lfps", 3), ("ts1", 1)]), hot=weighted([(0, 3), (1, 1)]), noscr=weighted([(0, 3), (1, 1)]),
         inv=weighted([(0, 5), (1, 1)]), race=weighted([(0, 6), (1, 1)]),
         stop=weighted([("", 8), ("lfps", 1), ("ts1", 1), ("ts2", 1), ("idle", 1), ("loopback", 1)]),
-        over=st.integers(-3, 4), skip=weighted(_SKIP)))
+        over=st.integers(-3, 4), skip=weighted(_SKIP), wr_raw=wr_raw)).map(place(BRING_POINTS, HOT_POINTS))
     rec = st.fixed_dictionaries(dict(
-        k=st.just("rec"), d=st.lists(weighted(_SMALL), min_size=8, max_size=8),
-        how=weighted([("ts1", 1), ("trigger", 1)]), noscr=weighted([(0, 3), (1, 1)]),
-        race=weighted([(0, 6), (1, 1)]), skip=weighted(_SKIP)))
+        k=st.just("rec"), d=st.lists(weighted(_SMALL), min_size=12, max_size=12),
+        how=weighted([("ts1", 1), ("trigger", 1)]), noscr=weighted([(0, 3), (1, 1)]), hot=weighted([(0, 3), (1, 1)]),
+        race=weighted([(0, 6), (1, 1)]), skip=weighted(_SKIP), wr_raw=wr_raw)).map(place(REC_POINTS, HOT_POINTS))
+    if focused:
+        # histories made of cooperative scripts only (nothing left out, short waits in between): most of them get
+        # somewhere, so the injected warm resets and the hot-reset paths are actually reached
+        def clean(d):
+            return dict(d, skip="", **({"stop": ""} if d["k"] == "bring" else {}))
+        short = st.fixed_dictionaries(dict(k=st.just("w"), n=weighted([(1, 2), (3, 2), (8, 2), (30, 1), (101, 1), (110, 1)])))
+        return st.tuples(bring.map(clean), st.lists(st.one_of(short, rec.map(clean), rec.map(clean), bring.map(clean)),
+                                                    max_size=4)).map(lambda t: [t[0]] + t[1])
     return st.one_of(wait, wait, pulse, pulse, pulse, level, bring, rec)
 
 
@@ -90,11 +119,20 @@ def expand(steps):
             skip = s.get("skip", "")
             stop = s.get("stop", "")
 
-            def step(name, names, w=1, gap=0):
+            wr = s.get("wr") or ["", 0, 0]
+
+            def inject(point):
+                if wr[0] == point:
+                    if wr[1]:
+                        wait(wr[1])
+                    pulse(["in_usb_reset"], wr[2], 1)
+
+            def step(name, names, w=1, gap=0, point=None):
                 if skip == name:
                     wait(w + gap)
                 else:
                     pulse(names, w, gap)
+                inject(point or name)
 
             level("phy_ready", 1)
             level("in_usb_reset", 0)
@@ -132,28 +170,47 @@ def expand(steps):
                 wait(T2 + s["over"] - d[8])
                 continue
             if s["hot"]:
+                inject("hot_enter")                                           # Hot Reset.Active, reset bit still sent
                 pulse(["ts_burst_complete"], 1, d[9])
-                step("ts2", ["ts2_detected"], 1, 1)
-                step("burst_ts2", ["ts_burst_complete"], 1, d[10])
+                inject("hot_burst")
+                step("ts2", ["ts2_detected"], 1, 1, point="hot_ts2")
+                step("burst_ts2", ["ts_burst_complete"], 1, d[10], point="hot_burst_ts2")     # -> Hot Reset.Exit
             step("idle", ["idle_handshake_complete"] + (["in_usb_reset"] if s["race"] else []), 1, d[11])
         elif k == "rec":
-            d = s["d"]
+            d = list(s["d"]) + [1] * 4
             skip = s.get("skip", "")
+            wr = s.get("wr") or ["", 0, 0]
 
-            def step(name, names, w=1, gap=0):
+            def inject(point):
+                if wr[0] == point:
+                    if wr[1]:
+                        wait(wr[1])
+                    pulse(["in_usb_reset"], wr[2], 1)
+
+            def step(name, names, w=1, gap=0, point=None):
                 if skip == name:
                     wait(w + gap)
                 else:
                     pulse(names, w, gap)
+                inject(point or name)
 
             pulse(["ts1_detected" if s["how"] == "ts1" else "trigger_link_recovery"], 1, d[0])
+            inject("enter")
             step("burst_min", ["ts_burst_complete"], 1, d[1])
             step("ts1", ["ts1_detected"], 1, d[2])
+            if s.get("hot"):
+                pulse(["hot_reset_requested"], 2, 1)
             if s["noscr"]:
                 pulse(["no_scrambling_requested"], 1, 1)
             step("ts2", ["ts2_detected"], 1, d[3])
             step("burst_ts2", ["ts_burst_complete"], 1, d[4])
             step("burst_exit", ["ts_burst_complete"], 1, d[5])
+            if s.get("hot"):                                                  # Recovery.Idle -> Hot Reset.Active
+                inject("hot_enter")
+                pulse(["ts_burst_complete"], 1, d[8])
+                inject("hot_burst")
+                step("ts2", ["ts2_detected"], 1, 1, point="hot_ts2")
+                step("burst_ts2", ["ts_burst_complete"], 1, d[9], point="hot_burst_ts2")      # -> Hot Reset.Exit
             step("idle", ["idle_handshake_complete"] + (["in_usb_reset"] if s["race"] else []), 1, d[6])
     ev.append(({}, 6))
     # merge zero-length events into their successor and cap the total length
@@ -236,7 +293,8 @@ class LtssmSub(Sub):
     shrink_budget = 60
     rule = ("event-list histories for LTSSMController(50 kHz, loosen_requirements on/off): cooperative partner "
             "scripts (bring-up via LFPS or TS1, optional hot reset / no-scrambling / inverted polarity, recovery "
-            "scripts, idle-handshake-vs-reset races) interleaved with adversarial pulses, level changes and waits "
+            "scripts with optional hot reset, idle-handshake-vs-reset races, a warm reset of 1..640 cycles beginning inside "
+            "any substate of a script incl. Hot Reset.Active/Exit and the Recovery substates) interleaved with adversarial pulses, level changes and waits "
             "around every timeout; port-history monitors: link_ready rising => partner detected while requested, "
             "polling LFPS (or TS1 when loosened) with >= 16 sent, TS2 seen and burst completed while sending TS2 "
             "since the last TS1/hot-reset phase start, idle handshake completed; in_usb_reset(t) => no link_ready "
@@ -253,9 +311,10 @@ class LtssmSub(Sub):
         return self.h[loosen]
 
     def strategy(self):
+        general = long_lists(_steps(), min_size=1, max_size=40, average=12)
         return st.fixed_dictionaries(dict(
             loosen=st.integers(0, 1),
-            steps=long_lists(_steps(), min_size=1, max_size=40, average=12)))
+            steps=st.one_of(general, general, _steps(focused=True))))
 
     def enumerate(self, tier):
         d = [1] * 14
@@ -294,7 +353,18 @@ class LtssmSub(Sub):
                 dict(loosen=loosen, steps=[dict(b, stop="ts2", over=3), w(30), b, w(20)]),
                 dict(loosen=loosen, steps=[dict(b, stop="idle", over=3), w(30), b, w(20)]),
                 dict(loosen=loosen, steps=[dict(b, stop="lfps", over=3), w(30), b, w(20)]),
+                dict(loosen=loosen, steps=[b, w(5), dict(r, hot=1), w(20)]),
             ]
+            # a warm reset beginning inside every substate of the hot-reset path (bring-up and recovery) and of the
+            # plain scripts: short, and longer than the substate's timeout
+            for n in (2, 130, 640):
+                for pt in HOT_POINTS:
+                    cases.append(dict(loosen=loosen, steps=[dict(b, hot=1, wr=[pt, 1, n]), w(30)]))
+                    cases.append(dict(loosen=loosen, steps=[b, w(5), dict(r, hot=1, wr=[pt, 1, n]), w(30)]))
+                for pt in BRING_POINTS:
+                    cases.append(dict(loosen=loosen, steps=[dict(b, wr=[pt, 1, n]), w(30)]))
+                for pt in REC_POINTS:
+                    cases.append(dict(loosen=loosen, steps=[b, w(5), dict(r, wr=[pt, 1, n]), w(30)]))
         return cases
 
     def run(self, case):
